@@ -138,7 +138,14 @@ func RunRaces(e *Env) {
 						for _, nd := range cfg.Nodes() {
 							_ = nd.LastErr()
 							_ = nd.Latency()
+							_ = nd.FullString()
 						}
+						// the provided sorters read per-node channel state (last error) while calls and reconnects run
+						raw := cl.Mgr.RawManager.Nodes()
+						gorums.OrderedBy(gorums.LastNodeError, gorums.ID).Sort(raw)
+						gorums.OrderedBy(gorums.Port).Sort(raw)
+						_ = cfg.NodeIDs()
+						_ = cfg.Equal(cl.Cfg.RawConfiguration)
 					}
 					op := &Op{Method: m, Node: wr.Intn(n), NoWait: wr.Intn(2) == 0, Threshold: int(th)}
 					if IsPN(m) && wr.Intn(2) == 0 {
